@@ -185,6 +185,29 @@ impl<'de, H: Deserialize<'de> + FuzzyHashType> Deserialize<'de> for Probe<H> {
     }
 }
 
+/// Like `Probe`, but enters through `Deserialize::deserialize_in_place` on an existing (valid) value.
+struct ProbeInPlace<H>(H);
+thread_local! {
+    /// binary form of the value that is overwritten in place
+    static PLACE: RefCell<Vec<u8>> = const { RefCell::new(Vec::new()) };
+}
+impl<'de, H: Deserialize<'de> + FuzzyHashType + for<'a> TryFrom<&'a [u8]>> Deserialize<'de> for ProbeInPlace<H> {
+    fn deserialize<D: Deserializer<'de>>(d: D) -> Result<Self, D::Error> {
+        let bytes = PLACE.with(|p| p.borrow().clone());
+        let Ok(mut place) = H::try_from(&bytes[..]) else {
+            return Err(serde::de::Error::custom("harness: no place value"));
+        };
+        let r = H::deserialize_in_place(Rec(d), &mut place);
+        INNER.with(|l| {
+            *l.borrow_mut() = Some(match &r {
+                Ok(()) => Ok(render_h(&place)),
+                Err(e) => Err(e.to_string()),
+            })
+        });
+        r.map(|()| ProbeInPlace(place))
+    }
+}
+
 fn render_h<H: FuzzyHashType>(h: &H) -> String {
     let mut buf = [0u8; 160];
     let n = h.store_into_str_bytes(&mut buf, HexStringPrefix::WithVersion).expect("fits");
@@ -705,6 +728,27 @@ where
     if let Some(v) = judge::<K>(hr, &inner, &log) {
         return Some(v);
     }
+    // the same document once more through Deserialize::deserialize_in_place on an existing valid value
+    {
+        let n = <K::H as FuzzyHashType>::SIZE_IN_BYTES;
+        let mut pb = vec![0x11u8; n];
+        pb[K::CKSUM] = 0x10; // a valid length code; checksum 0x11 is valid for every variant
+        PLACE.with(|p| *p.borrow_mut() = pb);
+        reset_log();
+        let outer2: Result<String, String> = de_slice::<ProbeInPlace<K::H>>(h.fmt, &doc).map(|p| render_h(&p.0));
+        let log2 = LOG.with(|l| l.borrow().clone());
+        let inner2 = INNER.with(|l| l.borrow().clone());
+        let hr2 = HR.with(|l| *l.borrow()).unwrap_or(h.fmt == 0);
+        st.hit("probe.deserialize_in_place");
+        if let Some(v) = judge::<K>(hr2, &inner2, &log2) {
+            return Some(Violation { class: format!("in-place-{}", v.class), detail: format!("deserialize_in_place: {}", v.detail) });
+        }
+        if let (Ok(o), Some(Ok(i))) = (&outer2, &inner2) {
+            if o != i {
+                return mk("de-wrong-value", format!("deserialize_in_place: format crate returned {o} but the place holds {i}"));
+            }
+        }
+    }
     match (&outer, &inner) {
         (Ok(o), Some(Ok(i))) if o != i => return mk("de-wrong-value", format!("format crate returned {o} but fast-tlsh's Deserialize produced {i}")),
         (Ok(o), Some(Err(_))) | (Ok(o), None) => return mk("de-accepts-what-parser-rejects", format!("format crate returned Ok({o}) although fast-tlsh's Deserialize did not return Ok")),
@@ -1150,7 +1194,20 @@ where
     }
     fnv.write(format!("{:?}", got.as_ref().map(|p| render_h(&p.0)).map_err(|e| e.0.clone())).as_bytes());
     states.push((h.hr as u64) << 40 | (h.event as u64) << 32 | (K::ID as u64) << 24 | (h.form as u64) << 20 | (inner.as_ref().map(|r| r.is_ok() as u64 + 1).unwrap_or(0)) << 16 | (payload.len() as u64 & 0xff));
-    judge::<K>(h.hr, &inner, &log)
+    if let Some(v) = judge::<K>(h.hr, &inner, &log) {
+        return Some(v);
+    }
+    // the same event through deserialize_in_place
+    let nn = <K::H as FuzzyHashType>::SIZE_IN_BYTES;
+    let mut pb = vec![0x11u8; nn];
+    pb[K::CKSUM] = 0x10;
+    PLACE.with(|p| *p.borrow_mut() = pb);
+    reset_log();
+    let d = MockDe { hr: h.hr, event: h.event, nested: h.nested, payload: &payload };
+    let _ = ProbeInPlace::<K::H>::deserialize(d);
+    let log = LOG.with(|l| l.borrow().clone());
+    let inner = INNER.with(|l| l.borrow().clone());
+    judge::<K>(h.hr, &inner, &log).map(|v| Violation { class: format!("in-place-{}", v.class), detail: format!("deserialize_in_place: {}", v.detail) })
 }
 
 impl Scenario for C16Mock {
